@@ -461,7 +461,7 @@ def h_dmet_reorder(env, nested, canary=False, q=0, spin=0):
                    f"reordered molecule keeps charge / spin / basis / electron count (q={q}, spin={spin})")
 
 
-def h_dmet_exact(env, variants, q=0, spin=0, solver="fci", exact=True):
+def h_dmet_exact(env, variants, q=0, spin=0, solver="fci", exact=True, system="H4"):
     """AUXILIARY concrete shape (no solver role; numpy/scipy/PySCF numerics end to end): H4 chain split into two halves - every
     fragment-plus-bath space is the whole orbital space - DMET energy == full-CI energy (1e-6), the fragment electron numbers
     sum to the total (1e-5), and every way of naming the same fragments (sizes, nested index lists, relabelled atoms) gives
@@ -471,12 +471,19 @@ def h_dmet_exact(env, variants, q=0, spin=0, solver="fci", exact=True):
     from tangelo.algorithms.classical import FCISolver
     from symx import shim
     xyz = [("H", (0.0, 0.0, 0.0)), ("H", (0.0, 0.0, 0.9)), ("H", (0.0, 0.1, 1.9)), ("H", (0.0, 0.0, 3.0))]
+    mkw, extra = dict(basis="sto-3g"), {}
+    if system == "NaH-ecp":
+        # a molecule carrying an effective core potential, taken as ONE fragment (the whole orbital space); with a single fragment
+        # the electron-number mismatch vanishes for every chemical potential, so the root search is told to accept its start value
+        xyz = [("Na", (0.0, 0.0, 0.0)), ("H", (0.0, 0.0, 2.0))]
+        mkw = dict(basis="lanl2dz", ecp={"Na": "lanl2dz"})
+        extra = {"optimizer": (lambda func, mu0: mu0 if abs(func(mu0)) < 1e-9 else __import__("scipy.optimize").optimize.newton(func, mu0, tol=1e-6))}
     es = []
     with shim.concrete_mode():
-        mol = SecondQuantizedMolecule(xyz, q=q, spin=spin, basis="sto-3g", uhf=bool(spin))
-        e_ref = float(FCISolver(SecondQuantizedMolecule(xyz, q=q, spin=spin, basis="sto-3g")).simulate()) if exact else None
+        mol = SecondQuantizedMolecule(xyz, q=q, spin=spin, uhf=bool(spin), **mkw)
+        e_ref = float(FCISolver(SecondQuantizedMolecule(xyz, q=q, spin=spin, **mkw)).simulate()) if exact else None
         for frag in variants:
-            d = DMETProblemDecomposition({"molecule": mol, "fragment_atoms": frag, "fragment_solvers": solver, "verbose": False})
+            d = DMETProblemDecomposition(dict({"molecule": mol, "fragment_atoms": frag, "fragment_solvers": solver, "verbose": False}, **extra))
             d.build()
             e = float(d.simulate())
             dn = float(abs(d._oneshot_loop(d.chemical_potential)))
@@ -509,6 +516,7 @@ def shapes(tier, seed):
     halves = [[2, 2], [[0, 1], [2, 3]], [[1, 0], [3, 2]], [[2, 3], [0, 1]]]
     out.append(Shape("aux/dmet_exact/H4/fci", h_dmet_exact, dict(variants=halves)))
     # two electrons only: the bath of a half is one orbital, fragment + bath is NOT the whole space -> relabelling invariance only
+    out.append(Shape("aux/dmet_exact/NaH-ecp/fci", h_dmet_exact, dict(variants=[[2], [[0, 1]], [[1, 0]]], system="NaH-ecp")))
     out.append(Shape("aux/dmet_relabel/H4-dication/fci", h_dmet_exact, dict(variants=halves[:3], q=2, exact=False)))
     out.append(Shape("canary/dmet/reorder", h_dmet_reorder, dict(nested=[[1, 2], [0, 3]], canary=True), canary=True))
     n = len(GEOM7)
